@@ -132,7 +132,8 @@ fn main() {
         let cx = Cx::new(&w.data);
         // vectors of inner archetypes
         let per: &Vec<Vec<usize>> = if m <= 2 { &all_ix } else { &red };
-        let per: Vec<Vec<usize>> = if m == 4 { red.iter().filter(|ix| ix[3] + ix[4] + ix[5] + ix[6] != 1).cloned().collect() } else { per.clone() };
+        // M=4: block hashes {0, B1, B2, limb-sum-zero}, every asset/fee, all-default / all-alternative tails (32^4 vectors)
+        let per: Vec<Vec<usize>> = if m == 4 { all_ix.iter().filter(|ix| [0usize, 1, 2, 8].contains(&ix[0]) && [0usize, 4].contains(&(ix[3] + ix[4] + ix[5] + ix[6]))).cloned().collect() } else { per.clone() };
         let mut vecs: Vec<Vec<usize>> = Vec::new();
         product_indices(&vec![per.len(); m], |ix| vecs.push(ix.to_vec()));
         if !thorough && m == 2 && n == 2 {
